@@ -489,7 +489,7 @@ def main():
     else:
         chk.exhaustive = run(chk, 120, 3, 2, None, 24)
         vm_check(chk, 40)
-        if chk.broken() and not chk.spec_failures:
+        if (chk.broken() or chk.anchor_changed) and not chk.spec_failures:
             run(chk, 600, 4, 3, 3000, 120)
     chk.finish()
 
